@@ -319,7 +319,36 @@ theorem dropWhile_head {α} (p : α → Bool) : ∀ (l : List α) (c : α) (r : 
     | true => rw [hx] at h; exact dropWhile_head p l c r h
     | false => rw [hx] at h; simp only [List.cons.injEq] at h; rw [← h.1]; exact hx
 
-theorem parseFinalIdx_lit (t : Name) (i : Int) : parseFinalIdx t = .lit i → parseInt t = some i := by
+theorem dropWhile_subset {α} (p : α → Bool) : ∀ (l : List α) (x : α), x ∈ l.dropWhile p → x ∈ l
+  | [], _, h => by simp at h
+  | y :: l, x, h => by
+    simp only [List.dropWhile] at h
+    cases hy : p y with
+    | true => rw [hy] at h; exact List.mem_cons_of_mem _ (dropWhile_subset p l x h)
+    | false => rw [hy] at h; exact h
+
+theorem mem_of_not_dropWhile {α} (p : α → Bool) : ∀ (l : List α) (x : α), x ∈ l → x ∉ l.dropWhile p →
+    p x = true
+  | [], _, h, _ => by simp at h
+  | y :: l, x, h, hn => by
+    simp only [List.dropWhile] at hn
+    cases hy : p y with
+    | true =>
+      rw [hy] at hn
+      simp only [List.mem_cons] at h
+      rcases h with rfl | h
+      · exact hy
+      · exact mem_of_not_dropWhile p l x h hn
+    | false => rw [hy] at hn; exact absurd h hn
+
+theorem parseIdx_no_close (s : Name) (i : Int) (h : parseIdx s = some i) : ']' ∉ s := by
+  unfold parseIdx at h
+  have h1 := parseInt_no_close _ _ h
+  intro hm
+  have := mem_of_not_dropWhile (fun c => decide (c = ' ')) s ']' hm h1
+  simp at this
+
+theorem parseFinalIdx_lit (t : Name) (i : Int) : parseFinalIdx t = .lit i → parseIdx t = some i := by
   intro h
   unfold parseFinalIdx at h
   split at h
@@ -331,7 +360,7 @@ theorem parseFinalIdx_lit (t : Name) (i : Int) : parseFinalIdx t = .lit i → pa
 
 theorem parseSeg_final (m n : Name) (is : List Int) (i : Int)
     (hp : parseSeg m = some (n, is)) (hl : m.getLast? = some ']')
-    (hi : parseInt (finalIdxText m) = some i) :
+    (hi : parseIdx (finalIdxText m) = some i) :
     n = beforeBracket m ∧ is = [i] := by
   unfold parseSeg at hp
   split at hp
@@ -368,7 +397,7 @@ theorem parseSeg_final (m n : Name) (is : List Int) (i : Int)
           rw [this] at hlast; simpa using hlast
         subst hc
         rw [List.dropLast_concat] at hi
-        have hno := parseInt_no_close _ _ hi
+        have hno := parseIdx_no_close _ _ hi
         simp only [List.length_cons, parseGroups] at hg
         rw [takeWhile_append_stop _ idx ']' [] (by intro x hx; have : x ≠ ']' := fun e => hno (e ▸ hx); simpa using this) (by simp)] at hg
         rw [dropWhile_append_stop _ idx ']' [] (by intro x hx; have : x ≠ ']' := fun e => hno (e ▸ hx); simpa using this) (by simp)] at hg
